@@ -40,3 +40,29 @@ func c09Specs() []*bfsSpec {
 }
 
 func TestVerifC09(t *testing.T) { runSpecs(t, "C09", c09Specs()) }
+
+// Worlds in which a peer is stepped arm by arm (profile worldsel, see world_test.go):
+// the order in which a peer hands its events to the torrent, handles the
+// remote's messages and the torrent's commands is enumerated instead of being
+// left to the runtime's choice among ready select arms.
+func c09SelSpecs() []*bfsSpec {
+	return []*bfsSpec{
+		// a one-slot event queue: advertisements park inside the peer while the
+		// remote retracts them
+		{Name: "c09-sel-queue1", Cfg: worldCfg{Geom: "g2x2", Peers: []peerCfg{{Fast: true, Ext: true, DontHave: 7}}, EventCap: 1, Gates: true},
+			Setup:    []string{"drain", "have:0:0", "have:0:1", "gate:0"},
+			Alphabet: []string{"ev", "drain", "donthave:0:1", "donthave:0:0", "have:0:1", "havenone:0", "haveall:0", "pstep:0:2", "pstep:0:3", "pstep:0:4", "ungate:0", "gate:0", "close:0"},
+			Depth: 5, DepthT: 7},
+		// requests in flight while chokes, answers, rejects and scheduler commands cross
+		{Name: "c09-sel-requests", Cfg: worldCfg{Geom: "g2x2", Peers: []peerCfg{{Fast: true, Ext: true, DontHave: 7}}, Gates: true},
+			Setup:    []string{"haveall:0", "drain", "unchoke:0", "drain", "want:0:1", "tick", "drain", "gate:0"},
+			Alphabet: []string{"choke:0", "unchoke:0", "ans:0:old:full", "rej:0:old", "pstep:0:2", "pstep:0:3", "pstep:0:4", "pstep:0:6", "ev", "drain", "tick", "ungate:0", "unwant:0:1", "adv:2", "close:0"},
+			Depth: 5, DepthT: 7},
+		{Name: "c09-sel-2peers", Cfg: worldCfg{Geom: "g2x2", Peers: []peerCfg{{Fast: true, Ext: true, DontHave: 7}, {}}, EventCap: 2, Gates: true},
+			Setup:    []string{"drain", "bf:1:3", "drain", "have:0:0", "drain", "gate:0"},
+			Alphabet: []string{"ev", "drain", "have:0:1", "donthave:0:0", "donthave:0:1", "havenone:0", "bf:1:1", "close:1", "pstep:0:3", "pstep:0:4", "ungate:0", "close:0"},
+			Depth: 5, DepthT: 7},
+	}
+}
+
+func TestVerifC09Sel(t *testing.T) { runSpecs(t, "C09", c09SelSpecs()) }
